@@ -203,17 +203,17 @@ func (s *AppState) Verify() error {
 
 		}
 
+		for _, ff := range s.FrozenFunds {
+			if ff.Coin == coin.ID {
+				volume.Add(volume, helpers.StringToBigInt(ff.Value))
+			}
+		}
+
 		if coin.Crr == 0 {
 			if volume.Cmp(helpers.StringToBigInt(coin.Volume)) != 0 {
 				return fmt.Errorf("wrong token %s (%d) volume (%s)", coin.Symbol.String(), coin.ID, big.NewInt(0).Sub(volume, helpers.StringToBigInt(coin.Volume)))
 			}
 			continue
-		}
-
-		for _, ff := range s.FrozenFunds {
-			if ff.Coin == coin.ID {
-				volume.Add(volume, helpers.StringToBigInt(ff.Value))
-			}
 		}
 
 		for _, candidate := range s.Candidates {
